@@ -58,6 +58,12 @@ fn fixed_shapes(ints: &[i64]) -> Vec<Shape> {
     v.push(sh("array nested", array(vec![array(vec![int(1)]), string("a"), float(2.5), boolean(true)])));
     v.push(Shape { name: "function".into(), setup: vec![let_("fn_waarde", func("", &[], vec![es(int(1))]))], expr: ident("fn_waarde") });
     v.push(Shape { name: "aliased array".into(), setup: vec![let_("rij", array(vec![int(0), int(7)]))], expr: array(vec![ident("rij"), array(vec![int(1), ident("rij")]), int(2)]) });
+    v.push(Shape { name: "empty array twice".into(), setup: vec![let_("leeg", array(vec![]))], expr: array(vec![ident("leeg"), ident("leeg")]) });
+    v.push(Shape {
+        name: "empty array nested twice".into(),
+        setup: vec![let_("leeg", array(vec![])), let_("doos", array(vec![ident("leeg"), int(1)]))],
+        expr: array(vec![ident("doos"), ident("doos"), string("é")]),
+    });
     v.push(Shape {
         name: "cyclic array".into(),
         setup: vec![let_("kring", array(vec![int(0)])), es(assign(index(ident("kring"), int(0)), ident("kring")))],
@@ -197,6 +203,19 @@ fn check_print(prog: &BlockStmt, expected: &Option<String>) -> Result<(), Fail> 
 }
 
 pub fn replay(case: &Value) -> Option<Violation> {
+    if let Some(lines) = case.get("session").and_then(|s| s.as_array()) {
+        let (f, g) = (lines.first()?.as_str()?, lines.get(1)?.as_str()?);
+        let want = run_eval(g, &RunCfg { budget: VM_BUDGET, audit_heap: true });
+        let mut s = session_begin();
+        let first = s.line(f, VM_BUDGET);
+        let second = s.line(g, VM_BUDGET);
+        s.end();
+        crate::engine::install_gc_observer();
+        if !second.same_as(&want) || !second.events.is_empty() {
+            return Some(viol("replay", ("builtin:stale-state-after-error".into(), case.clone(), want.render(), format!("line 1: {} / line 2: {}", first.render(), second.render()))));
+        }
+        return None;
+    }
     let src = case.get("src")?.as_str()?;
     let prog = crate::dbgparse::parse_source(src).ok()?;
     if let Some(pe) = case.get("print_expected") {
@@ -298,6 +317,26 @@ pub fn run_check(ctx: &Ctx) -> Report {
         }
     }
     rep.sample(json!({"shape_call": print_canonical(&program(&[&shapes[shapes.len() - 1]], calln("string", vec![shapes[shapes.len() - 1].expr.clone()])))}));
+    // (3b) a builtin that fails must leave nothing behind for the next call on the same machine (the prompt keeps its VM):
+    // failing call on line 1, every builtin with a good argument on line 2, compared with a fresh evaluation of line 2
+    let failing = ["lengte(5)", "int(\"twaalf\")", "float([1])", "string(functie() { 1 })", "bool(functie() { 1 })", "type()", "type(1, 2)", "lengte()", "int([1], 2)", "lengte(\"a\", \"b\", \"c\")"];
+    let good = ["type(ja)", "int(\"12\")", "lengte(\"abc\")", "string(7)", "bool(0)", "float(2)", "print(\"{} {}\", 1, 2); 3", "lengte([1, 2])", "type(lengte(\"ab\"))"];
+    for f in failing {
+        for g in good {
+            rep.eval();
+            rep.count("after-failing-builtin");
+            let want = run_eval(g, &RunCfg { budget: VM_BUDGET, audit_heap: true });
+            let mut s = session_begin();
+            let first = s.line(f, VM_BUDGET);
+            let second = s.line(g, VM_BUDGET);
+            s.end();
+            crate::engine::install_gc_observer();
+            rep.nontrivial(&format!("{f} / {g}"));
+            if !matches!(first.outcome, Outcome::Error(_)) || !second.same_as(&want) || !second.events.is_empty() {
+                rep.violation(viol("after-failing-builtin", ("builtin:stale-state-after-error".into(), json!({"session": [f, g]}), format!("line 2 as on a fresh machine: {}", want.render()), format!("line 1: {} / line 2: {}", first.render(), second.render()))));
+            }
+        }
+    }
     // (4) generated floats: float(string(x)) bit-equal; (5) print formats
     let cases = ctx.pick(600_000u32, 10_000_000u32) / ctx.shards as u32;
     let seed = ctx.seed;
